@@ -37,11 +37,14 @@ CLAIMED = {
             "monitor predicts from the on-disk queue what is due and demands exactly one new version with the current content, the remaining queue and the wait.",
             NOTE + "The world theorem covers plain heads without collision; history, project and collision heads are covered by C08/C11/C04 theorems and by the correspondence. No concurrent writer.",
             "refinement + program-logic composition over the world model; world correspondence + burst monitor"),
-    "C03": ("Theorem: after any prefix of any operation history the queue directory reloads to exactly the reference queue of that prefix (every queue operation is a single "
-            "directory mutation, so these are all disk states a crash can leave); a torn position file only rewinds. Store side: confinement for every oracle including crashes. "
-            "Tie: the implementation is really killed (_exit) before every system call of 15 scenario families, restarted and drained, and compared with the model under the same crash index.",
-            NOTE + "Crash = process death between two system calls with completed calls durable. Known finding K3 (reload changing queue_path strands pending entries).",
-            "prefix-closed simulation invariant; crash-point enumeration against the model + recovery monitor"),
+    "C03": ("Theorems. Queue level: after any prefix of any operation history the queue directory reloads to exactly the reference queue of that prefix; a torn position file only rewinds. World level, about the disk left by a timeout pass "
+            "under EVERY oracle (returned, reported an error, or the process died before any call): the queue directory still refines a reference queue that is a suffix of the original entries under their original link names, holds "
+            "nothing but numbered links, no stored file changed, and load_linq on that disk succeeds and yields exactly that suffix; for every honest oracle (any crash, any errno that does not itself mean an expected condition, any short "
+            "non-zero transfer): if the link of the first entry is gone, the store holds a file with the source's bytes (pop only after the copy). Tie: the implementation is really killed (_exit) before every system call of 19 scenario "
+            "families, restarted and drained, and compared with the model under the same crash index; monitors: recovery (files and projects), store immutable, queue form, position not ahead of the store.",
+            NOTE + "Crash = process death between two system calls with completed calls durable. 'Pop after copy' is proved for the first file entry of a pass; later entries, project entries, accept and reload operations are covered by the "
+            "suffix / immutability theorems and the enumeration. Known finding K3 (reload changing queue_path strands pending entries).",
+            "program logic with crash condition over the world model, for all oracles; prefix-closed simulation invariant; crash-point enumeration against the model + recovery monitor"),
     "C04": ("Theorems for EVERY oracle (any failing calls, short transfers, a crash at any call): a timeout pass, an exec or write event (including a configuration reload), a restart, "
             "and whole histories of events change or remove no file of the store or project store (same name, same inode, same bytes), and the invariant is re-established so the statement chains; "
             "candidate names are base, -1, -2, ... for every k. Tie: histories with up to 12 versions in one timestamp and pre-seeded names, monitors 'no store file changes or disappears' and "
